@@ -1,7 +1,6 @@
 package ip
 
 import (
-	"math"
 	"net"
 
 	"github.com/vishvananda/netlink"
@@ -13,11 +12,11 @@ func GetDefaultInterface() (iface *net.Interface, ifaceIP net.IP, err error) {
 	if routes, err = netlink.RouteList(nil, nl.FAMILY_V4); err != nil {
 		return
 	}
-	priority := math.MaxInt32
+	found, priority := false, 0
 	for _, route := range routes {
 		// found default gateway (a preferred source address on the route does not make it less of one)
-		if route.Dst == nil && route.Priority < priority {
-			priority = route.Priority
+		if route.Dst == nil && (!found || route.Priority < priority) {
+			found, priority = true, route.Priority
 			if iface, err = net.InterfaceByIndex(route.LinkIndex); err != nil {
 				return
 			}
@@ -34,11 +33,11 @@ func GetDefaultGatewayIP(iface *net.Interface) (gatewayIP net.IP, err error) {
 	if routes, err = netlink.RouteList(nil, nl.FAMILY_V4); err != nil {
 		return
 	}
-	priority := math.MaxInt32
+	found, priority := false, 0
 	for _, route := range routes {
 		// found default gateway
-		if route.Dst == nil && route.LinkIndex == iface.Index && route.Priority < priority {
-			priority = route.Priority
+		if route.Dst == nil && route.LinkIndex == iface.Index && (!found || route.Priority < priority) {
+			found, priority = true, route.Priority
 			gatewayIP = route.Gw
 		}
 	}
